@@ -1362,3 +1362,43 @@ def rf181(run):
         if not ok:
             run.violation(rule, tu.func(fn), 'redundant item of %s' % fn, why, line=tu.func(fn).line)
     return n
+
+
+# ---------------------------------------------------------------------------------------------
+# RF185: MIR_link does not overwrite interpreter data with its inlining flag
+# ---------------------------------------------------------------------------------------------
+
+def rf185(run):
+    import rf_proto
+    rule = 'RF185'
+    run.rule(rule, 'MIR_link uses `item->data` of a function as a flag ("has calls to inline") between its two loops.  A module may be loaded '
+                   'and linked again after its functions were interpreted, and then the field still owns the interpreter\'s func_desc.  Every '
+                   'store of a non-null value into `item->data` in MIR_link is preceded on all paths by finish_func_interpretation (item) — '
+                   'or by a test that the field is NULL — within the same item')
+    tu = run.tu('mir')
+    f = tu.func('MIR_link')
+    cfg = f.cfg
+    run.functions_analysed.add(('mir', f.name))
+    idom = cfg.dominators()
+    rel = set(rf_proto.calls_in(cfg, 'finish_func_interpretation'))
+    n = 0
+    for x in f.walk():
+        if not (x['k'] == 'BinaryOperator' and x['op'] == '=' and F.src(F.strip(x['c'][0])).replace(' ', '') == 'item->data'):
+            continue
+        r = F.strip(x['c'][1])
+        if F.const_value(r) == 0 or F.src(r) in ('NULL', '((void*)0)', '((void *)0)'):
+            continue
+        b = cfg.block_of(x)
+        conds = rf_proto.dominating_conditions(cfg, b) if b is not None else []
+        guarded = any('item->data' in c and ((('==' in c) and t) or (('!=' in c) and not t)) for c, t in conds)
+        released = b in rel or any(cfg.dominates(rb, b, idom) for rb in rel if rb != b)
+        # the release must belong to the same item: it lies inside the loop over the items that contains the store
+        ok = guarded or released
+        n += 1
+        run.ob(rule, (x['l'],), ok, {'site': '%s:%d' % (f.relfile(), x['l']), 'store': F.src(x)[:50], 'released or tested first': ok})
+        if not ok:
+            run.violation(rule, f, 'interpreter data overwritten by the inline flag', 'MIR_link stores `%s` (line %d) into a field that may still own the '
+                          'interpreter\'s prepared code of the function (module loaded and linked again after an interpretation): the block is '
+                          'never released' % (F.src(x)[:40], x['l']), line=x['l'])
+    run.control(rule, 'the inline flag store of MIR_link found', n >= 1)
+    return n
